@@ -11,7 +11,7 @@ import hashlib
 from .core import Result, Violation, HarnessError, EventLog, bump, rng_for, sha_bytes, settle
 
 PROP = 'C20'
-TIMEOUT = 600
+TIMEOUT = 1800
 BATCHES = {
     'quick': [('P', 600), ('A', 110), ('B', 110), ('S', 150)],
     'thorough': [('P', 12000), ('A', 2500), ('B', 2500), ('S', 3500)],
